@@ -37,15 +37,18 @@ type SingletonActor struct {
 var (
 	singSeq  atomic.Int64
 	singMu   sync.Mutex
-	singLive = map[int64]string{} // instance -> node between PreStart ok and PostStop
+	singLive = map[int64][2]string{} // instance -> (node, singleton name) between PreStart ok and PostStop
 )
 
-func singNodes() []string {
+// singNodes lists the nodes of the running instances of singleton `name` (a late instance of an earlier history is not counted).
+func singNodes(name string) []string {
 	singMu.Lock()
 	defer singMu.Unlock()
 	out := []string{}
-	for _, n := range singLive {
-		out = append(out, n)
+	for _, v := range singLive {
+		if v[1] == name {
+			out = append(out, v[0])
+		}
 	}
 	sort.Strings(out)
 	return out
@@ -58,7 +61,7 @@ func (a *SingletonActor) PreStart(ctx *actor.Context) error {
 	a.node = n.name
 	a.name = ctx.ActorName()
 	singMu.Lock()
-	singLive[a.inst] = n.name
+	singLive[a.inst] = [2]string{n.name, a.name}
 	W.w.Emit(map[string]any{"ev": "start", "n": n.name, "inst": a.inst, "id": a.name})
 	singMu.Unlock()
 	return nil
@@ -174,21 +177,16 @@ func (wd *world) endSingleton(name string, quiet bool) {
 	if quiet {
 		q = 1
 	}
-	wd.w.Emit(map[string]any{"ev": "End", "q": q, "own": own, "live": singNodes(), "id": name})
+	wd.w.Emit(map[string]any{"ev": "End", "q": q, "own": own, "live": singNodes(name), "id": name})
 	for _, n := range wd.nodes {
 		_ = n.sys.Kill(ctx, name)
 	}
 	_ = wd.nodes[0].cl.RemoveActor(ctx, name)
 	// PostStop of the killed instances
 	deadline := time.Now().Add(3 * time.Second)
-	for len(singNodes()) > 0 && time.Now().Before(deadline) {
+	for len(singNodes(name)) > 0 && time.Now().Before(deadline) {
 		time.Sleep(200 * time.Microsecond)
 	}
-	singMu.Lock()
-	for k := range singLive {
-		delete(singLive, k)
-	}
-	singMu.Unlock()
 }
 
 // flight returns the adopted goroutine that runs spawnSingletonOnLocal for caller t ("" = none).
@@ -361,7 +359,7 @@ func singleReplay(wd *world, bs []behaviour, st *stats) {
 				break
 			}
 			st.Steps++
-			wd.w.Emit(map[string]any{"ev": "step", "t": x.T, "a": x.A, "gate": gate, "at": at, "own": actorOwner(wd, name), "live": singNodes(), "i": si})
+			wd.w.Emit(map[string]any{"ev": "step", "t": x.T, "a": x.A, "gate": gate, "at": at, "own": actorOwner(wd, name), "live": singNodes(name), "i": si})
 			if gate != singGateOfPC[x.PC] || (at != "" && gate != "call" && gate != "done" && at != x.At) {
 				drift = fmt.Sprintf("%s->%s:reached=%s@%s:want=%s@%s", x.A, x.PC, gate, at, singGateOfPC[x.PC], x.At)
 				break
